@@ -5,7 +5,7 @@
    get_pseudo_random_state and the round-number updates are the TRANSLATED functions
    of gen/Gen_client_samplers.v.  NumPy enters as oracles (`rs_randint`, `choice`);
    JAX keys are split paths. *)
-From Coq Require Import ZArith List Bool.
+From Coq Require Import ZArith List Bool Zpow_facts.
 From FV Require Import Common.ListX gen.Gen_client_samplers.
 Import ListNotations.
 Local Open Scope Z_scope.
@@ -31,8 +31,11 @@ Inductive op := Sample | SetRound (r : Z).
 Section GetSampler.
 Context {Id D : Type}.
 Variable id_eqb : Id -> Id -> bool.
-(* rs_randint s a b = np.random.RandomState(s).randint(a, b) *)
-Variable rs_randint : Z -> Z -> Z -> Z.
+(* prs seed r = the seed of the RandomState that get_pseudo_random_state(seed, r) returns.
+   The theorems instantiate it with the TRANSLATED `get_pseudo_random_state rs_randint`;
+   the correspondence evaluates it with `fast_random_state rs_randint`, proved equal
+   (square-and-multiply instead of 16807^r, so that any round number is cheap). *)
+Variable prs : Z -> Z -> option Z.
 (* choice s ids n = list(np.random.RandomState(s).choice(np.array(ids, dtype=object), size=n, replace=False)) *)
 Variable choice : Z -> list Id -> Z -> list Id.
 (* the federated dataset: (client id, client dataset) in client_ids() order *)
@@ -58,7 +61,7 @@ Fixpoint get_clients (ids : list Id) : option (list (Id * D)) :=
 
 (* sample() at round number r; None = an exception (the round number then stays) *)
 Definition sample_at (r : Z) : option (list (Id * D * kpath)) :=
-  match get_pseudo_random_state rs_randint seed r with
+  match prs seed r with
   | None => None
   | Some s =>
     let client_ids := choice s (map fst fd) num_clients in
@@ -89,6 +92,12 @@ Fixpoint state_after (ops : list op) (st : Z) : Z :=
 Fixpoint outputs (ops : list op) (st : Z) : list (option (list (Id * D * kpath))) :=
   match ops with [] => [] | o :: ops' => snd (gstep st o) ++ outputs ops' (fst (gstep st o)) end.
 End GetSampler.
+
+(* get_pseudo_random_state with the power computed by square-and-multiply
+   (Zpow_facts.Zpow_mod); equal to the translated function: Proofs/C13_Proofs.fast_is_translated *)
+Definition fast_random_state (rs_randint : Z -> Z -> Z -> Z) (seed round_num : Z) : option Z :=
+  let mlcg_modulus := 2 ^ 31 - 1 in
+  Some ((Zpow_mod 16807 round_num mlcg_modulus * rs_randint seed 1 (mlcg_modulus - 1)) mod mlcg_modulus).
 
 (* ------------------------------------------------------------------ *)
 (* UniformShuffledClientSampler over a client stream                    *)
@@ -170,7 +179,7 @@ Definition out_eqb (a b : option (list (list Z * list Z * (Z * Z)))) : bool :=
 Definition C13_agree (c : C13_case) (o : C13_obs) : bool :=
   match c, o with
   | CGet ids data n seed start table round0 ops, OGet outs =>
-    let model := outputs bytes_eqb (const_randint seed start) (table_choice table []) (combine ids data) n seed ops round0 in
+    let model := outputs bytes_eqb (fast_random_state (const_randint seed start)) (table_choice table []) (combine ids data) n seed ops round0 in
     list_beq out_eqb
       (map (fun r => match r with
                      | Some l => Some (map (fun x => (fst (fst x), snd (fst x), path_pair n (snd x))) l)
